@@ -18,6 +18,12 @@ handler*; the handler is defined by recursion on a fuel `Nat` (`spreadHandler`).
 (number of fragment definitions + 1); every spread that recurses adds a new, distinct, defined fragment
 name to the stack, so the fuel cannot run out before the stack check fires. The exhausted-fuel branch
 (unreachable) reports `RecursingFragmentSpread`, so that `checkOp S D = []` never hides an unfinished walk.
+
+This is the code AFTER the `fix:` commits bb13114, 0076043, 20563f6, c5d2b9d, 276cf9e, f60edb6, 647d48b,
+4e8f5ac, ccd11d9 (see design-notes/C03.md): directives are checked at all eight executable locations, fragment
+definitions no operation spreads are walked on their own (`without_variable_checks`), variable defaults are
+checked, the interface-equals-interface fast path no longer skips the selection set, the subscription root
+is counted by response key.
 Core Lean only; structurally recursive (kernel-evaluable).
 -/
 import NitroVerif.Model.CheckCommon
@@ -66,7 +72,7 @@ def spreadApplicability (S : Schema) (root cond : TypeDef) (spreadPos : Pos) : L
   | .object, .union => (if cond.members.any (·.1 == root.name) then [] else never, true)
   | .union, .object => (if root.members.any (·.1 == cond.name) then [] else never, true)
   | .interface, .interface =>
-    if root.name == cond.name then ([], false)   -- "fast path": `return` — the selection set is NOT checked
+    if root.name == cond.name then ([], true)   -- fast path: an interface always matches itself
     else
       (if S.typeNames.any (fun n => match S.typeDef? n with
           | some o => o.kind == .object && implementsIface o root.name && implementsIface o cond.name
@@ -85,18 +91,13 @@ def spreadApplicability (S : Schema) (root cond : TypeDef) (spreadPos : Pos) : L
 abbrev SpreadHandler := List Name → Option (List VarDef) → TypeDef → Name → Pos → Pos → List Diag
 
 mutual
-/-- `check_selection_set`; `anchor` stands for `selection_set.position` -/
-def checkSelectionSet (S : Schema) (H : SpreadHandler) (seen : List Name) (vars : Option (List VarDef))
-    (root : TypeDef) (sels : List Selection) (anchor : Pos) : List Diag :=
-  match directFields root with
-  | none => [(ErrKind.SelectionOnInvalidType, anchor)]
-  | some fields => checkSelections S H seen vars root fields sels
-/-- the loop over the selections of one selection set -/
+/-- the loop over the selections of one selection set (`fields` = `direct_fields_of_output_type(root)`) -/
 def checkSelections (S : Schema) (H : SpreadHandler) (seen : List Name) (vars : Option (List VarDef))
     (root : TypeDef) (fields : List FieldDef) : List Selection → List Diag
   | [] => []
   | s :: ss => checkSelection S H seen vars root fields s ++ checkSelections S H seen vars root fields ss
-/-- `check_selection_field` / `check_fragment_spread` / `check_inline_fragment` -/
+/-- `check_selection_field` / `check_fragment_spread` / `check_inline_fragment`; the nested calls of
+    `check_selection_set` are written out (`directFields` test + loop) so that the recursion is structural -/
 def checkSelection (S : Schema) (H : SpreadHandler) (seen : List Name) (vars : Option (List VarDef))
     (root : TypeDef) (fields : List FieldDef) : Selection → List Diag
   | .field _ name namePos args dirs sel =>
@@ -109,19 +110,35 @@ def checkSelection (S : Schema) (H : SpreadHandler) (seen : List Name) (vars : O
        | none => [(ErrKind.TypeSystemError, namePos)]
        | some ft =>
          match sel with
-         | some ss => checkSelectionSet S H seen vars ft ss namePos
-         | none => if (directFields ft).isSome then [(ErrKind.MustSpecifySelectionSet, namePos)] else [])
-  | .spread name namePos _dirs pos => H seen vars root name namePos pos
-  | .inline cond _dirs ss pos =>
+         | some ss =>
+           (match directFields ft with
+            | none => [(ErrKind.SelectionOnInvalidType, namePos)]
+            | some ffields => checkSelections S H seen vars ft ffields ss)
+         | none => [])
+  | .spread name namePos dirs pos =>
+    checkDirectives S vars dirs "FRAGMENT_SPREAD" ++ H seen vars root name namePos pos
+  | .inline cond dirs ss pos =>
+    checkDirectives S vars dirs "INLINE_FRAGMENT" ++
     match cond with
-    | none => checkSelectionSet S H seen vars root ss pos
+    | none => checkSelections S H seen vars root fields ss
     | some (c, cp) =>
       match S.typeDef? c with
       | none => [(ErrKind.UnknownType, cp)]
       | some ct =>
         let a := spreadApplicability S root ct pos
-        a.1 ++ (if a.2 then checkSelectionSet S H seen vars ct ss pos else [])
+        a.1 ++ (if a.2 then
+          (match directFields ct with
+           | none => [(ErrKind.SelectionOnInvalidType, pos)]
+           | some cfields => checkSelections S H seen vars ct cfields ss)
+          else [])
 end
+
+/-- `check_selection_set`; `anchor` stands for `selection_set.position` -/
+def checkSelectionSet (S : Schema) (H : SpreadHandler) (seen : List Name) (vars : Option (List VarDef))
+    (root : TypeDef) (sels : List Selection) (anchor : Pos) : List Diag :=
+  match directFields root with
+  | none => [(ErrKind.SelectionOnInvalidType, anchor)]
+  | some fields => checkSelections S H seen vars root fields sels
 
 /-- `check_fragment_spread` (+ the part of `check_fragment_spread_core` after the stack check), by fuel -/
 def spreadHandler (S : Schema) (D : Doc) : Nat → SpreadHandler
@@ -139,30 +156,64 @@ def spreadHandler (S : Schema) (D : Doc) : Nat → SpreadHandler
 
 def fuelFor (D : Doc) : Nat := (fragsOf D).length + 1
 
-/-! ### `selection_set_has_more_than_one_fields` -/
+/-! ### `selection_set_has_more_than_one_fields` (distinct response keys of the root selection set) -/
 
-abbrev CountHandler := List Name → Name → Nat
+abbrev KeysHandler := List Name → Name → List Name
 
 mutual
-def countFields (H : CountHandler) (seen : List Name) : List Selection → Nat
-  | [] => 0
-  | s :: ss => countField H seen s + countFields H seen ss
-def countField (H : CountHandler) (seen : List Name) : Selection → Nat
-  | .field .. => 1
+def rootKeys (H : KeysHandler) (seen : List Name) : List Selection → List Name
+  | [] => []
+  | s :: ss => rootKeysSel H seen s ++ rootKeys H seen ss
+def rootKeysSel (H : KeysHandler) (seen : List Name) : Selection → List Name
+  | .field (some (a, _)) _ _ _ _ _ => [a]
+  | .field none n _ _ _ _ => [n]
   | .spread name _ _ _ => H seen name
-  | .inline _ _ ss _ => countFields H seen ss
+  | .inline _ _ ss _ => rootKeys H seen ss
 end
 
-def countHandler (D : Doc) : Nat → CountHandler
-  | 0 => fun _ _ => 0
+def keysHandler (D : Doc) : Nat → KeysHandler
+  | 0 => fun _ _ => []
   | fuel + 1 => fun seen name =>
-    if seen.contains name then 0
+    if seen.contains name then []
     else match fragMap D name with
-      | none => 0
-      | some f => countFields (countHandler D fuel) (seen ++ [name]) f.sel
+      | none => []
+      | some f => rootKeys (keysHandler D fuel) (seen ++ [name]) f.sel
+
+def dedupNames (xs : List Name) : List Name :=
+  xs.foldl (fun acc x => if acc.contains x then acc else acc ++ [x]) []
 
 def hasMoreThanOneField (D : Doc) (sels : List Selection) : Bool :=
-  countFields (countHandler D (fuelFor D)) [] sels > 1
+  (dedupNames (rootKeys (keysHandler D (fuelFor D)) [] sels)).length > 1
+
+/-! ### fragments used by operations (`fragments_used_by_operations`) -/
+
+mutual
+def spreadNamesSel : Selection → List Name
+  | .field _ _ _ _ _ (some ss) => spreadNames ss
+  | .field _ _ _ _ _ none => []
+  | .spread n _ _ _ => [n]
+  | .inline _ _ ss _ => spreadNames ss
+def spreadNames : List Selection → List Name
+  | [] => []
+  | s :: ss => spreadNamesSel s ++ spreadNames ss
+end
+
+/-- one round: add the fragments spread by the fragments already in the set -/
+def usedStep (D : Doc) (acc : List Name) : List Name :=
+  dedupNames (acc ++ acc.flatMap fun n => match fragMap D n with | some f => spreadNames f.sel | none => [])
+
+def usedIter (D : Doc) : Nat → List Name → List Name
+  | 0, acc => acc
+  | fuel + 1, acc => usedIter D fuel (usedStep D acc)
+
+/-- the set the worklist loop of `fragments_used_by_operations` computes: the names reachable from the
+    operations' selection sets through spreads (every productive round adds a defined fragment name, so
+    `#fragments + 2` rounds reach the fixed point) -/
+def usedFragments (D : Doc) : List Name :=
+  usedIter D ((fragsOf D).length + 2) (dedupNames ((opsOf D).flatMap fun o => spreadNames o.sel))
+
+/-- `without_variable_checks`: the diagnostics of a check run without variables, minus `UnknownVariable` -/
+def withoutVariableChecks (ds : List Diag) : List Diag := ds.filter fun d => d.1 != ErrKind.UnknownVariable
 
 /-! ### definitions -/
 
@@ -171,9 +222,10 @@ def checkVariablesAux (S : Schema) : List Name → List VarDef → List Diag
   | _, [] => []
   | seen, v :: vs =>
     (if seen.contains v.name then [(ErrKind.DuplicatedVariableName, v.pos)] else []) ++
+    checkDirectives S none v.dirs "VARIABLE_DEFINITION" ++
     (match isInputType? S v.ty.unwrapped with
      | none => [(ErrKind.UnknownType, typePos v.ty)]
-     | some true => []
+     | some true => (match v.default with | some d => checkValue S none d v.ty false | none => [])
      | some false => [(ErrKind.NoOutputType, typePos v.ty)]) ++
     checkVariablesAux S (if seen.contains v.name then seen else seen ++ [v.name]) vs
 
@@ -199,10 +251,16 @@ def checkOperation (S : Schema) (D : Doc) (op : OperationDef) : List Diag :=
       checkSelectionSet S (spreadHandler S D (fuelFor D)) [] (some op.vars) root op.sel op.pos
 
 /-- `check_fragment_definition` -/
-def checkFragmentDefinition (S : Schema) (f : FragmentDef) : List Diag :=
+def checkFragmentDefinition (S : Schema) (D : Doc) (used : Bool) (f : FragmentDef) : List Diag :=
+  withoutVariableChecks (checkDirectives S none f.dirs "FRAGMENT_DEFINITION") ++
   match S.typeDef? f.cond with
   | none => [(ErrKind.UnknownType, f.condPos)]
-  | some t => if (directFields t).isSome then [] else [(ErrKind.InvalidFragmentTarget, f.condPos)]
+  | some t =>
+    if (directFields t).isSome then
+      (if used then []
+       else withoutVariableChecks
+         (checkSelectionSet S (spreadHandler S D (fuelFor D)) [f.name] none t f.sel f.pos))
+    else [(ErrKind.InvalidFragmentTarget, f.condPos)]
 
 def opHasName (n : Name) : ExecDef → Bool
   | .op o => match o.name with | some (m, _) => m == n | none => false
@@ -211,21 +269,26 @@ def fragHasName (n : Name) : ExecDef → Bool
   | .frag f => f.name == n
   | _ => false
 
-/-- the main loop of `check_operation_document`; `earlier` = the definitions before the current one -/
+/-- the duplicate-name / lone-anonymous part of one iteration of the main loop; `earlier` = the definitions
+    before the current one (`document.definitions.iter().take(idx)`) -/
+def defHeader (opNum : Nat) (earlier : List ExecDef) : ExecDef → List Diag
+  | .op o =>
+    (match o.name with
+     | none => if opNum != 1 then [(ErrKind.UnNamedOperationMustBeSingle, o.pos)] else []
+     | some (n, np) => if earlier.any (opHasName n) then [(ErrKind.DuplicateOperationName, np)] else [])
+  | .frag f => if earlier.any (fragHasName f.name) then [(ErrKind.DuplicateFragmentName, f.namePos)] else []
+  | .imp _ => []
+
+/-- `check_operation` / `check_fragment_definition` of one definition -/
+def defBody (S : Schema) (D : Doc) : ExecDef → List Diag
+  | .op o => checkOperation S D o
+  | .frag f => checkFragmentDefinition S D ((usedFragments D).contains f.name) f
+  | .imp _ => []
+
+/-- the main loop of `check_operation_document` -/
 def checkDefs (S : Schema) (D : Doc) (opNum : Nat) : List ExecDef → List ExecDef → List Diag
   | _, [] => []
-  | earlier, d :: rest =>
-    (match d with
-     | .op o =>
-       (match o.name with
-        | none => if opNum != 1 then [(ErrKind.UnNamedOperationMustBeSingle, o.pos)] else []
-        | some (n, np) => if earlier.any (opHasName n) then [(ErrKind.DuplicateOperationName, np)] else []) ++
-       checkOperation S D o
-     | .frag f =>
-       (if earlier.any (fragHasName f.name) then [(ErrKind.DuplicateFragmentName, f.namePos)] else []) ++
-       checkFragmentDefinition S f
-     | .imp _ => []) ++
-    checkDefs S D opNum (earlier ++ [d]) rest
+  | earlier, d :: rest => defHeader opNum earlier d ++ defBody S D d ++ checkDefs S D opNum (earlier ++ [d]) rest
 
 /-- `check_operation_document(document, context)`; `S` is the resolved type-system document (with built-ins)
     from which `ast_to_type_system` builds the context's `Schema` -/
